@@ -42,6 +42,7 @@ type historyChecks struct {
 	m1  bool // C01: well-formedness of every genome an action produced or touched
 	c05 bool // C05: exact before/after relation of each mutator
 	c04 bool // C04: inheritance relation of each crossover between pool members
+	c03 bool // C03: innovation ledger over the whole history, identical innovations within a generation
 }
 
 func runHistory(c HistoryCase, chk historyChecks, rec *Rec) error {
@@ -54,6 +55,13 @@ func runHistory(c HistoryCase, chk historyChecks, rec *Rec) error {
 	pool := []*genetics.Genome{start}
 	pop := populationFor(c.Start)
 	nextId := 1000
+	var led *histLedger
+	if chk.c03 {
+		led = newHistLedger()
+		if err := led.record(c.Start, "start genome", false); err != nil {
+			return fmt.Errorf("harness: %v", err)
+		}
+	}
 	for step, op := range c.Ops {
 		subject := pool[op.A%len(pool)]
 		subject.Phenotype = nil // callers always hand a genome without (or with a current) phenotype to an operator
@@ -63,6 +71,9 @@ func runHistory(c HistoryCase, chk historyChecks, rec *Rec) error {
 		case op.Kind == opEndGeneration:
 			pop.VerifResetInnovations()
 			rec.Class("end of generation")
+			if led != nil {
+				led.endGeneration()
+			}
 		case op.Kind == opDuplicate:
 			before := Snapshot(subject)
 			nextId++
@@ -76,6 +87,11 @@ func runHistory(c HistoryCase, chk historyChecks, rec *Rec) error {
 				}
 				if d := DiffSpec(before, Snapshot(dup)); d != "" {
 					rec.Class("duplicate differs from its source (C06)")
+				}
+			}
+			if led != nil {
+				if err := led.record(Snapshot(dup), where+": the duplicate", true); err != nil {
+					return err
 				}
 			}
 			pool = addToPool(pool, dup, op.B)
@@ -112,6 +128,11 @@ func runHistory(c HistoryCase, chk historyChecks, rec *Rec) error {
 					return fmt.Errorf("%s: %v", where, err)
 				}
 			}
+			if led != nil {
+				if err := led.record(Snapshot(child), where+": the child", true); err != nil {
+					return err
+				}
+			}
 			classifyCrossover(b1, b2, rec)
 			pool = addToPool(pool, child, op.A+op.B)
 		default:
@@ -134,6 +155,11 @@ func runHistory(c HistoryCase, chk historyChecks, rec *Rec) error {
 			}
 			if chk.c05 {
 				if err := checkMutation(before, after, op, ok, hadRecord, rec); err != nil {
+					return fmt.Errorf("%s (result %v): %v\nbefore %s\nafter  %s", where, ok, err, jsonStr(before), jsonStr(after))
+				}
+			}
+			if led != nil {
+				if err := led.mutation(before, after, op.Kind, ok, rec); err != nil {
 					return fmt.Errorf("%s (result %v): %v\nbefore %s\nafter  %s", where, ok, err, jsonStr(before), jsonStr(after))
 				}
 			}
@@ -222,4 +248,169 @@ func classifyStructural(before, after GenomeSpec, kind string, ok, hadRecord boo
 	if hidden > 0 || disabled > 0 {
 		rec.NonTrivial(hashOf(kind, len(before.Nodes), len(before.Genes), hidden, disabled, len(after.Genes)))
 	}
+}
+
+/* ---- C03 on operator histories: the innovation ledger (M3) with the harness in control of the generation boundary ---- */
+
+type histLedger struct {
+	genes    map[int64][3]int // innovation -> (in, out, recurrent), over the whole history
+	roles    map[int]int      // node id -> role
+	maxInnov int64
+	maxNode  int
+	// the current generation: links invented by add-link / connect-sensors, splits invented by add-node
+	genLinks  map[[3]int]int64
+	genSplits map[int64][3]int64 // innovation of the split gene -> (new node id, number of in-gene, number of out-gene)
+	// links invented in earlier generations (to observe that a forgotten innovation receives a new number)
+	oldLinks map[[3]int]int64
+}
+
+func newHistLedger() *histLedger {
+	return &histLedger{genes: map[int64][3]int{}, roles: map[int]int{}, genLinks: map[[3]int]int64{}, genSplits: map[int64][3]int64{}, oldLinks: map[[3]int]int64{}}
+}
+
+func (l *histLedger) endGeneration() {
+	for k, v := range l.genLinks {
+		l.oldLinks[k] = v
+	}
+	l.genLinks = map[[3]int]int64{}
+	l.genSplits = map[int64][3]int64{}
+}
+
+// record enters a genome into the ledger. closed: the genome was produced by duplication or crossover and can therefore
+// only carry numbers and node ids that the history has already seen.
+func (l *histLedger) record(s GenomeSpec, what string, closed bool) error {
+	for _, n := range s.Nodes {
+		role, known := l.roles[n.Id]
+		if known && role != n.Role {
+			return fmt.Errorf("%s: node id %d denotes a node of role %d here and of role %d elsewhere in the history", what, n.Id, n.Role, role)
+		}
+		if !known {
+			if closed {
+				return fmt.Errorf("%s carries node id %d which no genome of the history held before", what, n.Id)
+			}
+			l.roles[n.Id] = n.Role
+			if n.Id > l.maxNode {
+				l.maxNode = n.Id
+			}
+		}
+	}
+	for _, g := range s.Genes {
+		k := [3]int{g.In, g.Out, b2i(g.Rec)}
+		old, known := l.genes[g.Innov]
+		if known && old != k {
+			return fmt.Errorf("%s: innovation %d joins %d->%d rec=%d here but %d->%d rec=%d elsewhere in the history", what, g.Innov, k[0], k[1], k[2], old[0], old[1], old[2])
+		}
+		if !known {
+			if closed {
+				return fmt.Errorf("%s carries innovation %d which no genome of the history held before", what, g.Innov)
+			}
+			l.genes[g.Innov] = k
+			if g.Innov > l.maxInnov {
+				l.maxInnov = g.Innov
+			}
+		}
+	}
+	return nil
+}
+
+// mutation judges the numbers a mutator handed out and records the mutated genome.
+func (l *histLedger) mutation(before, after GenomeSpec, kind string, ok bool, rec *Rec) error {
+	prevInnov, prevNode := l.maxInnov, l.maxNode
+	bGenes, bNodes := geneIndex(before), nodeIndex(before)
+	var newGenes []GeneSpec
+	var disabledNow []GeneSpec
+	for _, g := range after.Genes {
+		if old, had := bGenes[g.Innov]; !had {
+			newGenes = append(newGenes, g)
+		} else if old.En && !g.En {
+			disabledNow = append(disabledNow, old)
+		}
+	}
+	var newNodes []NodeSpec
+	for _, n := range after.Nodes {
+		if _, had := bNodes[n.Id]; !had {
+			newNodes = append(newNodes, n)
+		}
+	}
+	fresh := func(what string, inn int64) error {
+		if _, known := l.genes[inn]; known {
+			return fmt.Errorf("%s received the innovation number %d which the history already uses", what, inn)
+		}
+		if inn <= prevInnov {
+			return fmt.Errorf("%s received the innovation number %d, not larger than the largest number %d held before", what, inn, prevInnov)
+		}
+		return nil
+	}
+	switch {
+	case ok && (kind == opAddLink || kind == opConnectSensors):
+		for _, g := range newGenes {
+			k := [3]int{g.In, g.Out, b2i(g.Rec)}
+			what := fmt.Sprintf("the new link %d->%d rec=%d", k[0], k[1], k[2])
+			if prev, had := l.genLinks[k]; had {
+				if prev != g.Innov {
+					return fmt.Errorf("%s was invented twice in one generation and received the numbers %d and %d", what, prev, g.Innov)
+				}
+				rec.Class("same link invented by several genomes of one generation")
+				rec.NonTrivial(hashOf("link", k, g.Innov, len(after.Genes)))
+			} else {
+				if err := fresh(what, g.Innov); err != nil {
+					return err
+				}
+				if old, had := l.oldLinks[k]; had && old != g.Innov {
+					rec.Class("link of an earlier generation invented again under a new number")
+					rec.NonTrivial(hashOf("again", k, g.Innov))
+				}
+				l.genLinks[k] = g.Innov
+				if _, both := l.genLinks[[3]int{k[0], k[1], 1 - k[2]}]; both {
+					rec.Class("recurrent and non-recurrent link on the same endpoints invented in one generation")
+				}
+			}
+		}
+	case ok && kind == opAddNode:
+		if len(newNodes) != 1 || len(newGenes) != 2 || len(disabledNow) != 1 {
+			break // C05 judges the shape of the mutation; nothing to compare here
+		}
+		split, n := disabledNow[0], newNodes[0].Id
+		var in, out *GeneSpec
+		for i := range newGenes {
+			if newGenes[i].Out == n {
+				in = &newGenes[i]
+			} else if newGenes[i].In == n {
+				out = &newGenes[i]
+			}
+		}
+		if in == nil || out == nil {
+			break
+		}
+		got := [3]int64{int64(n), in.Innov, out.Innov}
+		if prev, had := l.genSplits[split.Innov]; had {
+			if prev != got {
+				return fmt.Errorf("the split of gene %d (%d->%d) was performed twice in one generation and received (node, in-gene, out-gene) = %v and %v", split.Innov, split.In, split.Out, prev, got)
+			}
+			rec.Class("same split performed by several genomes of one generation")
+			rec.NonTrivial(hashOf("split", split.Innov, got))
+		} else {
+			if _, known := l.roles[n]; known || n <= prevNode {
+				return fmt.Errorf("the node created by splitting gene %d received the id %d, not larger than the largest id %d held before", split.Innov, n, prevNode)
+			}
+			if err := fresh(fmt.Sprintf("the gene %d->%d created by splitting gene %d", in.In, in.Out, split.Innov), in.Innov); err != nil {
+				return err
+			}
+			if err := fresh(fmt.Sprintf("the gene %d->%d created by splitting gene %d", out.In, out.Out, split.Innov), out.Innov); err != nil {
+				return err
+			}
+			if in.Innov == out.Innov {
+				return fmt.Errorf("both genes created by splitting gene %d carry the innovation number %d", split.Innov, in.Innov)
+			}
+			l.genSplits[split.Innov] = got
+		}
+	}
+	structural := kind == opAddNode || kind == opAddLink || kind == opConnectSensors
+	if err := l.record(after, "the genome after "+kind, !structural); err != nil {
+		return err
+	}
+	if l.maxInnov > prevInnov {
+		rec.Class("mutation issuing new innovation numbers")
+	}
+	return nil
 }
